@@ -711,6 +711,50 @@ fn state_check(mgr: &ModuleManager, model: &Model, kept: &[(usize, usize)], step
             at(format!("get_import_graph has {} -> {} (both exist) but {} has no such declaration; declarations {:?}, graph {:?}", MODS[e.0], MODS[e.1], MODS[e.0], rel_names(&rel), rel_names(&grel))),
         ));
     }
+    // further views of the same relation: the module listing, the transitive import closure of every existing module
+    // (everything reachable through declarations between existing modules, never the module itself: the relation is
+    // acyclic), and validate_module, which must answer for every existing module and must not find an import from a
+    // module that does not exist
+    {
+        let listed: BTreeSet<String> = mgr.list_modules().into_iter().collect();
+        let want: BTreeSet<String> = MODS.iter().enumerate().filter(|(i, _)| model[*i].is_some()).map(|(_, n)| n.to_string()).collect();
+        if listed != want {
+            return Err(Verdict::fail("module-listing", at(format!("list_modules() = {:?} but the existing modules are {:?}", listed, want))));
+        }
+        for (i, name) in MODS.iter().enumerate() {
+            if model[i].is_none() {
+                continue;
+            }
+            match mgr.get_transitive_dependencies(name) {
+                Err(e) => return Err(Verdict::fail("transitive-dependencies-err", at(format!("get_transitive_dependencies({}) returned Err: {}", name, e)))),
+                Ok(v) => {
+                    let got: BTreeSet<usize> = v.iter().filter_map(|n| mod_index(n)).filter(|j| model[*j].is_some()).collect();
+                    let want: BTreeSet<usize> = (0..4).filter(|j| *j != i && model[*j].is_some() && reach(&rel, i, *j)).collect();
+                    if got != want || v.iter().any(|n| n == name) {
+                        return Err(Verdict::fail(
+                            "transitive-dependencies",
+                            at(format!(
+                                "get_transitive_dependencies({}) = {:?} but through the declarations {:?} it reaches {:?}",
+                                name,
+                                v,
+                                rel_names(&rel),
+                                want.iter().map(|j| MODS[*j]).collect::<Vec<_>>()
+                            )),
+                        ));
+                    }
+                }
+            }
+            match mgr.validate_module(name) {
+                Err(e) => return Err(Verdict::fail("validate-module-err", at(format!("validate_module({}) returned Err for an existing module: {}", name, e)))),
+                Ok(v) => {
+                    if let Some(e) = v.errors.iter().find(|e| e.contains("non-existent module")) {
+                        let stale = kept.iter().any(|&(a, x)| a == i && model[x].is_none());
+                        return Err(Verdict::fail(sig(stale, "import-from-missing-module"), at(format!("validate_module({}) reports: {}", name, e))));
+                    }
+                }
+            }
+        }
+    }
     // (3), (4) visibility
     let reexports = model.iter().flatten().any(|m| m.decls.iter().any(|d| d.re.is_some()));
     if reexports {
